@@ -126,8 +126,8 @@ LinGroupCheck(s, keys, vg, pr, sp) ==
       n == Len(clist)
       m == pr.n
       vEv(j) == LinEntryEvents(ComId(clist[j]), vg.pt,
-                               LinId(pr, j, {"replace:wf0"}),
-                               LinId(pr, j, {"replace:v0", "v_trunc", "v_extend"}), keys.wf)
+                               LinId(pr, j, {"replace:wf0", "replace:wf_last"}),
+                               LinId(pr, j, {"replace:v0", "replace:v_last", "v_trunc", "v_extend"}), keys.wf)
       pEv(j) == LinEntryEvents(pr.srcs[j], pr.pt, <<pr.op, pr.g, 10 * j>>, <<pr.op, pr.g, 10 * j>>, keys.wf)
       prefixEq(j) == sp = pr.pre /\ \A i \in 1..j : vEv(i) = pEv(i)
       entryRes(j) ==
@@ -138,8 +138,9 @@ LinGroupCheck(s, keys, vg, pr, sp) ==
           [] HasMut(pr, j, "cols_trunc") \/ HasMut(pr, j, "forge_nocolumns") -> "panic"   \* columns[j] indexed for every derived position
           [] ~prefixEq(j) -> "err"
           [] HasMut(pr, j, "replace:path0") \/ HasMut(pr, j, "cols_repeat") \/ HasMut(pr, j, "cols_shift") -> "err"
-          [] HasMut(pr, j, "path_sibling") /\ ChecksMerkleResult(s) -> "reject"
-          [] HasMut(pr, j, "replace:col0") -> "err"
+          [] (HasMut(pr, j, "path_sibling") \/ HasMut(pr, j, "sibling:path_last") \/ HasMut(pr, j, "sibling:path_repeat")
+              \/ HasMut(pr, j, "authpath:path_repeat")) /\ ChecksMerkleResult(s) -> "reject"
+          [] HasMut(pr, j, "replace:col0") \/ HasMut(pr, j, "replace:col_last") -> "err"
           [] vg.deltas[j] # 0 -> "reject"
           [] OTHER -> "accept"
       bad == {j \in 1..n : entryRes(j) # "accept"}
